@@ -5,7 +5,7 @@
 From Coq Require Import List NArith.
 Import ListNotations.
 Require Import MayV.Rt.TimerThread MayV.Rt.TimerThreadInv MayV.Rt.TimerThreadThm.
-Open Scope N_scope.
+Local Open Scope N_scope.
 
 (* (a) the timer thread never sleeps past the earliest deadline: when it is parked (until T, or for ever) and no
    token is pending, every pending entry e has T <= eeff e + tlag, or an unpark for it is in flight (somebody
